@@ -9,8 +9,9 @@ from collections import Counter
 from contextlib import contextmanager
 
 
-class Hang(Exception):
-    pass
+class Hang(BaseException):
+    """Raised by the deadline timer.  Not an Exception: neither the library's nor the harness's
+    `except Exception` clauses may turn a deadline into an ordinary callback failure."""
 
 
 def _on_alarm(signum, frame):
